@@ -7,6 +7,7 @@ import size_branches
 import dead_reads
 import derived
 import reader_extra
+import layout_rules
 import json, os
 from vlib.core import VERIF
 
@@ -41,6 +42,10 @@ def run(facts, tier):
     obs += o
     rules.append({"rule": "io-words", "instances": len([x for x in o if x["status"] != "info"]), "min": 28,
                   "text": "every linear layout a writer can emit (fixed runs, raw / serde / nested parts, loops) is one of the layouts the corresponding reader consumes, for the stream and the byte forms"})
+    o = layout_rules.estimation_state_written(facts)
+    obs += o
+    rules.append({"rule": "estimation state written", "instances": len(o), "min": 8,
+                  "text": "compact Theta / Tuple writers write theta for every estimation-mode sketch (truth table over estimation mode, empty, single entry)"})
     o = reader_extra.narrow_image_arith(facts)
     obs += o
     rules.append({"rule": "narrow image arithmetic", "instances": len(o), "min": 1,
